@@ -26,6 +26,7 @@ from MIP.geom.forcad import transform_frame
 from MIP.geom.transforms import get_transforms
 
 from ..Surface.SurfaceMCNP import SurfaceMCNP
+from ..Surface.ConversionSurfaceMCNPToT4 import sq_to_gq
 from .TransformationQuad import transformation_quad
 from .TransformationError import TransformationError
 
@@ -395,7 +396,12 @@ def transformation(trpl, surface):
     '''
     if not trpl:
         return surface
-    if surface.type_surface in (MS.SQ, MS.GQ):
+    if surface.type_surface == MS.SQ:
+        # transformation_quad works on the coefficients of a general quadric
+        surface = SurfaceMCNP(surface.boundary_cond, MS.GQ,
+                              surface.param_surface,
+                              sq_to_gq(surface.compl_param), surface.idorigin)
+    if surface.type_surface == MS.GQ:
         frame = tuple(surface.param_surface)
         params = transformation_quad(surface.compl_param, trpl)
     else:
